@@ -173,7 +173,7 @@ def run_pool(ctx, name, nr, nc, **kw):
 def _proto_job(args):
     base, lines, const, seed = args
     out = []
-    n_eval = sens = 0
+    n_eval = sens = reached = 0
     methods = ['cosine', 'corr', 'rho-a', 'cosine_cov', 'corr_cov']
     for j, line in enumerate(lines):
         rec = json.loads(line)
@@ -185,7 +185,8 @@ def _proto_job(args):
         out += res[0]
         n_eval += res[1]
         sens += res[2]
-    return (out, n_eval, sens, len(lines))
+        reached += res[3]
+    return (out, n_eval, sens, len(lines), reached)
 
 
 def run_proto(ctx, name, nr, nc, **kw):
@@ -203,24 +204,28 @@ def run_proto(ctx, name, nr, nc, **kw):
         for chunk in r.iter_lines(20):
             yield (base, chunk, const, ctx.seed)
             base += len(chunk)
-    n = sens = 0
+    n = sens = reached = nviol = 0
     with mp.Pool(NPROC) as pool:
         for res in pool.imap_unordered(_proto_job, jobs()):
             if res[0] == 'machinery':
                 raise MachineryError(res[1])
-            out, n_eval, s, cnt = res
+            out, n_eval, s, cnt, rch = res
             ctx.count(n_eval)
             n += cnt
             sens += s
+            reached += rch
+            nviol += len(out)
             for key, what, case in out:
                 ctx.violation(key, what, dict(case, run=name))
     for o in r.iter_emitted():
         if len(o['folds']) > 1:
             ctx.nontriv(('p', name, o['api'], json.dumps(o['case'])))
     ctx.traces += n
-    ctx.extra.setdefault('protocol_runs', {})[name] = {'cases': n, 'perturbations_that_moved_the_prediction': sens}
-    if sens == 0:
-        raise MachineryError(f'{name}: vacuous perturbation replay (no training entry ever moved a prediction)')
+    ctx.extra.setdefault('protocol_runs', {})[name] = {'cases': n, 'reached_perturbation_replay': reached, 'perturbations_that_moved_the_prediction': sens}
+    # vacuity guard of the replay itself - it must not depend on the library's numbers being right: cases that stop at a
+    # structural violation never reach the replay, and those are reported, not vacuous
+    if (reached > 0 and sens == 0) or (reached == 0 and nviol == 0):
+        raise MachineryError(f'{name}: vacuous perturbation replay ({reached} cases reached it, no training entry ever moved a prediction)')
     return n
 
 
@@ -336,6 +341,9 @@ def run(ctx):
                   thin_s=3, thin_g=7)
         run_value(ctx, 'v_cv_3x4', 3, 4, nrand, methods='MAll', valmax=1, candmax=2, thin_r=2, thin_s=23, cvcat='CvCat34',
                   gens='GensAll', perml=2)
+        run_value(ctx, 'v_xf_2x3', 2, 3, 20, methods='MAll', valmax=3, candmax=1, thin_s=3, xforms='XfExtreme')
+        run_value(ctx, 'v_xf_cv', 3, 4, 20, methods='MAll', valmax=1, candmax=1, thin_r=5, thin_s=29, cvcat='CvCat34',
+                  gens='GensAll', perml=2, xforms='XfExtreme3')
         run_value(ctx, 'v_sess_2x3', 2, 3, 20, methods='MAll', valmax=3, candmax=1, thin_s=7, maxcalls=3)
         run_value(ctx, 'v_sess_cv', 3, 4, 20, methods='MAll', valmax=1, candmax=1, thin_r=5, thin_s=7, cvcat='CvCat34',
                   gens='GensAll', perml=2, maxcalls=2)
@@ -345,6 +353,10 @@ def run(ctx):
         run_value(ctx, 'v_mask_a', 2, 4, nrand, methods='MAll', valmax=2, candmax=2, masks='Mask4a', thin_s=17)
         run_value(ctx, 'v_cv_3x4', 3, 4, nrand, methods='MAll', valmax=1, candmax=1, thin_r=5, thin_s=7, cvcat='CvCat34',
                   gens='GensAll', perml=2)
+        # clause e with extreme factors (1e-26, 1e-13, 1e+12; one RDM or all of them), boot and cv ceilings
+        run_value(ctx, 'v_xf_2x3', 2, 3, 20, methods='MAll', valmax=3, candmax=1, thin_s=29, xforms='XfExtreme')
+        run_value(ctx, 'v_xf_cv', 3, 4, 20, methods='MAll', valmax=1, candmax=1, thin_r=5, thin_s=131, cvcat='CvCat34',
+                  gens='GensAll', perml=2, xforms='XfExtreme3')
         # sessions: every ordered pair of methods, one after the other, on ONE data object
         run_value(ctx, 'v_sess_2x3', 2, 3, 20, methods='MAll', valmax=2, candmax=1, thin_s=11, maxcalls=2)
         run_value(ctx, 'v_sess_cv', 3, 4, 20, methods='MAll', valmax=1, candmax=1, thin_r=5, thin_s=67, cvcat='CvCat34',
